@@ -2,15 +2,18 @@ package c12_lp_total
 
 import (
 	"fmt"
+	"strings"
 	"testing"
 
 	"github.com/influxdata/influxdb/v2/models"
 )
 
-// TestKnown_comment_swallows_following_lines: the line splitter (scanLine) applies its quote and
-// backslash tracking to comment lines too. A comment that contains a '"' after an '=' (odd number of
-// quotes), or that ends in a backslash, therefore extends over the following newline(s): the
-// well-formed lines after it are neither returned nor named in the error — they vanish silently.
+// TestKnown_comment_swallows_following_lines: the line splitter (scanLine) applies its quote tracking
+// (meant for newlines inside string FIELD values) to comment lines too. A comment that contains a '"'
+// after an '=' (odd number of quotes) therefore extends over the following newline(s): the well-formed
+// lines after it are neither returned nor named in the error — they vanish silently.
+// (A comment ending in a backslash does the same; that variant is treated as the documented
+// trailing-backslash limitation and is only reported here, not required for reproduction.)
 func TestKnown_comment_swallows_following_lines(t *testing.T) {
 	const in1 = "# note: threshold=\"high\ncpu value=1 1\ncpu value=2 2"
 	const in2 = "# trailing backslash \\\ncpu value=1 1\ncpu value=2 2"
@@ -21,7 +24,7 @@ func TestKnown_comment_swallows_following_lines(t *testing.T) {
 	if ec != nil || len(pc) != 2 {
 		t.Fatalf("control failed: %d %v", len(pc), ec)
 	}
-	reproduced := (len(p1) != 2 && e1 == nil) || (len(p2) != 2 && e2 == nil)
+	reproduced := len(p1) != 2 && e1 == nil
 	rec.Known(t, "TestKnown_comment_swallows_following_lines", kComment, reproduced,
 		fmt.Sprintf("input %q -> %d points, err=%v; input %q -> %d points, err=%v (both contain two well-formed lines after a comment; without the quote/backslash: %d points)", in1, len(p1), e1, in2, len(p2), e2, len(pc)),
 		map[string]any{"input1": in1, "input2": in2})
@@ -49,4 +52,39 @@ func TestKnown_empty_field_key_after_tab_or_nul(t *testing.T) {
 	det = append(det, fmt.Sprintf("control %q -> err=%v", "cpu  =1", cerr))
 	rec.Known(t, "TestKnown_empty_field_key_after_tab_or_nul", kEmptyKey, reproduced && cerr != nil,
 		"a line whose field set starts with '=' after a TAB/NUL is accepted as a point without any field: "+fmt.Sprint(det), map[string]any{"inputs": det})
+}
+
+// TestKnown_accepted_point_fields_unreadable: `cpu a\\="b="` is accepted (1 point, nil error): scanFields
+// skips `\\` as an escape pair and takes the '=' after it as the key/value separator (value "b=").
+// The field iterator (scanTo) treats that '=' as escaped because the previous byte is a backslash, so
+// it finds the key `a\\="b` and the value `"`; Point.Fields() / FieldIterator.StringValue() then slice
+// valueBuf[1:0] and PANIC. With `cpu a\\="b=c"` Fields() returns an error instead (value `c"`).
+// `0 0=""\,"="` (found by FuzzParsePoints) panics the same way: scanFields skips `\,`, scanFieldValue ends
+// the value at that comma. The write path calls these accessors on every returned point.
+func TestKnown_accepted_point_fields_unreadable(t *testing.T) {
+	var det []string
+	reproduced := false
+	for _, in := range []string{`cpu a\\="b="`, `cpu a\\="b=c"`, `0 0=""\,"="`, `0 0=""="","="`} {
+		pts, err := models.ParsePointsString(in)
+		accepted := err == nil && len(pts) == 1
+		outcome := "n/a"
+		if accepted {
+			func() {
+				defer func() {
+					if r := recover(); r != nil {
+						outcome = fmt.Sprintf("PANIC %v", r)
+						reproduced = true
+					}
+				}()
+				if _, ferr := pts[0].Fields(); ferr != nil {
+					outcome = "error " + ferr.Error()
+					reproduced = true
+				} else {
+					outcome = "ok"
+				}
+			}()
+		}
+		det = append(det, fmt.Sprintf("ParsePoints(%q) -> %d point(s), err=%v; Fields() of the returned point: %s", in, len(pts), err, outcome))
+	}
+	rec.Known(t, "TestKnown_accepted_point_fields_unreadable", kUnreadable, reproduced, strings.Join(det, " | "), map[string]any{"cases": det})
 }
